@@ -329,7 +329,8 @@ class ForwardScheduler(IScheduler):
         self.__prepare_tasks(forward)
 
         forward_resource_usage = _ResourceUsage()
-        calculated = []
+        # tasks outside the WBS only bound their successors with the dates they have; they are not scheduled
+        calculated = [id(p) for t in forward.tasks for p in t.predecessors if p.wbs is not forward]
         for t in forward.roots:
             self.__forward_pass(t, self.__start, forward_resource_usage, calculated)
 
@@ -514,7 +515,8 @@ class BackwardScheduler(IScheduler):
         backward_resource_usage = _ResourceUsage()
         backward_roots = backward.roots
 
-        calculated = []
+        # tasks outside the WBS only bound their predecessors with the dates they have; they are not scheduled
+        calculated = [id(s) for t in backward.tasks for s in t.successors if s.wbs is not backward]
         for i in range(len(backward_roots) - 1, -1, -1):
             self.__backward_pass(backward_roots[i], self.__end, backward_resource_usage, calculated)
 
